@@ -12,15 +12,15 @@ P['C01'] = {
     'units': ['ring', 'stream'],
     'technique': 'Verus function contracts + representation invariant on the real circular_buffer.rs functions and the stream.rs wrappers (mechanically extracted each run)',
     'level_text': 'Deductive proof for all states, sizes and operation arguments (no bound): wf is established by Buffer::new and preserved by produce/consume; window ranges, refusal of oversize commit/consume, readable+writable==capacity and the FIFO/partition/stability lemmas are postconditions or lemmas over those contracts.',
-    'level_note': 'Trusted: mmap aliasing (Circ::new/full_buffer, unsafe), Mutex atomicity (lock code dropped by rule X-LOCK), std BTreeMap/sort shims. stream.rs (unit stream): read_buf / write_buf are proved to be pure delegations; new_stream / new_nocopy_stream hand out two ends of ONE fresh buffer / queue; ReadStream::eof; the packet streams NCReadStream::{pop, peek_size, eof} / NCWriteStream::push are a FIFO over a trusted VecDeque shim (pop returns the oldest packet exactly once, push appends).  wait_for_* (condvars) are not under contract.',
+    'level_note': 'Trusted: mmap aliasing (Circ::new/full_buffer, unsafe), Mutex atomicity (lock code dropped by rule X-LOCK), std BTreeMap/sort shims. stream.rs (unit stream): read_buf / write_buf are proved to be pure delegations; new_stream / new_nocopy_stream hand out two ends of ONE fresh buffer / queue; ReadStream::eof; the packet streams NCReadStream::{pop, peek_size, eof} / NCWriteStream::push are a FIFO over a trusted VecDeque shim (pop returns the oldest packet exactly once, push appends).  ReadStream::wait_for_read / WriteStream::wait_for_write give up exactly when the buffer-level wait came back short and no other handle exists (the condvar wait inside Buffer is not under contract).',
     'assumptions': [
         'A-ALIAS: Circ::new / Circ::full_buffer (mmap double mapping, unsafe slice construction) are trusted: window element i is ring[(start+i) % cap]',
         'X-LOCK: each Mutex critical section is atomic; lock/condvar/Arc reference counting are dropped by the extraction (no concurrency claim)',
-        'stream.rs: ReadStream::read_buf / WriteStream::write_buf are under contract as pure delegations (unit stream); new_stream, ReadStream::eof and the packet streams (pop / push / peek_size / eof / new_nocopy_stream) against shims of Arc (identity, strong_count at the time of the call) and VecDeque (pop_front / push_back / front / is_empty); each mutex critical section is atomic (rule X-NCQ, as X-LOCK); that the two ends alias one queue is the Arc identity, not modelled as shared state; wait_for_* / StreamWait are not under contract',
+        'stream.rs: ReadStream::read_buf / WriteStream::write_buf are under contract as pure delegations (unit stream); new_stream, ReadStream::eof and the packet streams (pop / push / peek_size / eof / new_nocopy_stream) against shims of Arc (identity, strong_count at the time of the call) and VecDeque (pop_front / push_back / front / is_empty); each mutex critical section is atomic (rule X-NCQ, as X-LOCK); that the two ends alias one queue is the Arc identity, not modelled as shared state; the StreamWait trait impls and Buffer::wait_for_read / wait_for_write (condvar, timeout) are not under contract; ReadStream::wait_for_read / WriteStream::wait_for_write are, over an uninterpreted result of the buffer-level wait',
     ],
     'not_covered': ['Circ::new, Circ::full_buffer, Map::* (unsafe / FFI)', 'Buffer::wait_for_read / wait_for_write (condvar)',
                     'BufferReader::slice/iter/consume, BufferWriter::slice/fill_from_iter/produce (delegations through Arc / &mut slices)',
-                    'src/stream.rs: wait_for_read / wait_for_write, StreamWait::{wait, closed} of all four stream ends (condvars, timeouts), ReadStream::from_slice (test only), total_size / free / refcount (one-line delegations)'],
+                    'src/stream.rs: StreamWait::{wait, closed} of all four stream ends (trait impls; the NC ones wait on a condvar), ReadStream::from_slice (test only), total_size / free / refcount (one-line delegations)'],
 }
 P['C02'] = {
     'units': ['ring', 'stream'],
